@@ -575,22 +575,23 @@ STEP_RULES = [
     Guard(r"detail::unlock_guard<stop_state> (\w+)\(\*this\);",
           r"struct unlock_guard \1; unlock_guard_ctor(&\1, self);", r"unlock_guard_dtor(&\1);", None),
     EXEC, FLAG,
-    Sub(r"\bauto\* (\w+) =", r"struct stop_callback_base *\1 =", 1),
-    Members(["callbacks_"]),
+    Sub(r"\bauto\* (\w+) =", r"struct stop_callback_base *\1 =", None),
+    Members(["callbacks_"], optional=["callbacks_"]),
 ]
 SLARS_RULES = [
     Guard(r"scoped_lock_and_request_stop (\w+)\(\*this\);",
           r"struct scoped_lock \1; scoped_lock_and_request_stop_ctor(&\1, self);", r"scoped_lock_and_request_stop_dtor(&\1);", 1),
     Sub(r"\(!l\)", "(!scoped_lock_and_request_stop_bool(&l))", None),
     LOAD, GET_SELF,
+    Sub(r"\bpika::threads::detail::invalid_thread_id\b", "0", None),
 ]
 
 
 def RS_BODY(loop, outline):
     if outline:   # loop body replaced by a call of drain_step (proved by cb.request_stop.step for the same text)
-        rules = [OutlineLoop(1, "drain_step(self);")] + SLARS_RULES + [Members(["callbacks_", "signalling_thread_"])]
+        rules = [OutlineLoop(1, "drain_step(self);")] + SLARS_RULES + [Members(["callbacks_", "signalling_thread_"], optional=["callbacks_", "signalling_thread_"])]
     else:
-        rules = SLARS_RULES + STEP_RULES[:-1] + [Members(["callbacks_", "signalling_thread_"])]
+        rules = SLARS_RULES + STEP_RULES[:-1] + [Members(["callbacks_", "signalling_thread_"], optional=["callbacks_", "signalling_thread_"])]
     return Lift(CPP, RS, rules=rules, loops=({1: loop, "count": 1} if loop else {"count": 1}))
 
 
@@ -655,7 +656,50 @@ UNITS += [
 ]
 
 META = {
-    "trusted_base": [],
-    "assumptions": [],
-    "not_decided": [],
+    "trusted_base": [
+        "specs/C14/stop.h atomic_load/atomic_cas_weak/atomic_fetch_add/atomic_fetch_sub + interfere(): std::atomic<uint64_t> as an "
+        "indivisible sequentially consistent word; before every access the environment may replace the word by any value allowed by "
+        "the rely RELY_G (stop bit never cleared and set only together with taking the lock; the lock bit is not touched while this "
+        "agent holds it; references this agent owns stay counted; fewer than 2^31-1 references of either kind; 'stop impossible' "
+        "(no stop requested, no source) is stable); compare_exchange_weak may fail spuriously; VX_ASSUME(RELY) in interfere()",
+        "specs/C14/stop.h yield_k: spinning is an environment stub (other agents' steps are the interference applied at the next access)",
+        "specs/C14/ledger.c struct iptr + iptr_*: hand-written model of pika::memory::intrusive_ptr<stop_state> (copy = add_ref, move = "
+        "steal, assignment = copy/move-and-swap, destructor = release, operator-> asserts non-null); it calls the LIFTED "
+        "intrusive_ptr_add_ref/intrusive_ptr_release; std::swap = move-construct + two move-assignments",
+        "specs/C14/spec.py MemberLift: C++ semantics of special members made explicit as text before the rewrite rules run: "
+        "mem-initialiser lists and implicit member default-initialisation become VX_MEMINIT statements, implicit member destruction "
+        "becomes VX_MEMDTOR statements, '= default' members are expanded member-wise from the class's data-member list (which is read "
+        "from the class definition and compared with the C model)",
+        "specs/C14/cb.c mon_materialise/mon_havoc_list (VX_ASSUME): when the state lock is acquired, and at the head of every "
+        "iteration of request_stop's loop (lock held continuously since), the callback list satisfies the monitor invariant "
+        "(head cell and first node linked to each other, listed callbacks not yet executed, a listed victim reachable from the head) -- "
+        "asserted at every release point of add_callback/remove_callback/request_stop; the list is seen through a window of two "
+        "anonymous nodes plus one symbolic victim; reachability of the victim is checked/assumed to depth 2 only (no quantifiers)",
+        "specs/C14/cb.c mon_lock/mon_unlock/t_lock_*: glue that resets the per-call linearisation ghost before a word operation used "
+        "through its S-contract; std::lock_guard = lock()/unlock(); get_self_id() returns an opaque id (0 = invalid_thread_id for "
+        "every plain OS thread; distinct non-zero ids for distinct live pika threads)",
+        "specs/C14/cb.c cb_execute/cb_user_code/flag_load: user callback as a counter + order predicates; a callback running on the "
+        "signalling thread may destroy its own stop_callback (sets *is_removed_ as remove_callback's contract says); the finished "
+        "flag of a dequeued callback is set only by the signaller after running it",
+        "cb.request_stop: the loop body is outlined (OutlineLoop rule) into drain_step, whose contract is proved for the same text by "
+        "cb.request_stop.step; word operations are used through the contracts spliced verbatim from specs/C14/word.c "
+        "(state.lock_and_request_stop and state.lock_if_not_stopped do NOT prove on the unchanged tree: see findings)",
+    ],
+    "assumptions": [
+        "fewer than 2^31-1 stop_tokens/stop_callbacks/stop_sources per stop state are alive at any time (the 31-bit fields have no "
+        "overflow check in pika)",
+        "request_stop is reachable only through a stop_source and a shared state gets a new source only as a copy of a live source "
+        "(preconditions g_mysrc >= 1 of lock_and_request_stop / add_source_count; re-proved at the lifted call sites of the ledger units)",
+        "source ledger units are sequential (one special member at a time, no interference); the atomic steps they are built from are "
+        "the S-units",
+        "A-CLOSED for stop_state::state_, callbacks_, signalling_thread_: written only by the functions lifted here (stop_token.cpp/.hpp); "
+        "jthread.hpp only calls the public API",
+    ],
+    "not_decided": [
+        "termination of the yield_k / yield_while spinning (lock acquisition, remove_callback waiting for the finished flag)",
+        "pika::memory::intrusive_ptr itself (trusted model), std::lock_guard, thread identity beyond get_self_id()",
+        "stop_callback<Callback> constructor/destructor templates (they only call add_callback/remove_callback), jthread",
+        "memory-order adequacy (A-SC)",
+        "full reachability of a registered callback from the list head (window approximation, depth 2)",
+    ],
 }
